@@ -186,6 +186,10 @@ def gen_case(prop, seed, p_fault=0.6):
             # the polygon primitive (shapely), with holes
             dom, pspace = {"k": "bnd", "d": GG.gen_poly_holes(r)}, []
         pspace, prows = gen_prows(r, pspace, allow_unused=False)
+        if r.random() < 0.1:
+            # vertex orientation depends on the parameter; one batch mixes both orientations
+            dom, pspace = {"k": "bnd", "d": GG.gen_flip(r, "x", "t", tri=r.random() < 0.6)}, [["t", 1]]
+            prows = [[GG.q(r.choice((r.uniform(0, 0.3), r.uniform(0.7, 1.0))))] for _ in range(r.choice((2, 3, 5)))]
         entry = {"kind": "domain", "method": r.choice(("random", "random", "grid")) if len(prows) <= 1 else "random",
                  "n": r.choice((1, 2, 3, 7, 16, 50, 120, 400))}
         fault = gen_fault(r, seed, 0.7)
